@@ -492,7 +492,7 @@ def conforms(o, spec, reg, path='$', lax=None):
     if t == 'any': return None
     if t == 'none':
         if o is None: return None
-        if lax is not None:
+        if lax is not None and '@v1' not in lax:
             lax.add('F25-none-annotation-accepts-anything'); return None
         return bad('expected None')
     simple = {'bool': bool, 'int': int, 'float': float, 'str': str, 'bytes': bytes, 'bytearray': bytearray}
@@ -518,7 +518,7 @@ def conforms(o, spec, reg, path='$', lax=None):
         if type(o) is not tuple: return bad('expected tuple')
         if len(o) != len(spec['es']):
             req = sum(1 for e in spec['es'] if not accepts_none(e))
-            if lax is not None and req <= len(o) < len(spec['es']):
+            if lax is not None and '@v1' not in lax and req <= len(o) < len(spec['es']):
                 lax.add('F24-short-tuple-with-optional-members')
             else:
                 return bad('expected %d elements' % len(spec['es']))
@@ -543,10 +543,17 @@ def conforms(o, spec, reg, path='$', lax=None):
         return None if o is None else rec(o, spec['e'], path)
     if t == 'union':
         for e in spec['es']:
-            trial = set() if lax is not None else None
+            trial = ({'@v1'} if '@v1' in lax else set()) if lax is not None else None
             if conforms(o, e, reg, path, trial) is None:
                 if trial: lax.update(trial)
                 return None
+        if lax is not None and '@v1' in lax:
+            # F26 (v1): the raw JSON container is returned when a container member failed to parse and the
+            # Union also has a str/int/float/bool member (type-check variable clobbered by a nested walrus)
+            if type(o) in (list, dict) and any(e['t'] in ('str', 'int', 'float', 'bool') for e in spec['es']) \
+                    and any(e['t'] in ('seq', 'tuple', 'vartuple', 'dict', 'nt', 'td') for e in spec['es']):
+                lax.add('F26-v1-union-returns-raw-container'); return None
+            return bad('in no Union member')
         if o is None and lax is not None:
             lax.add('F23-union-without-none-passes-none'); return None
         return bad('in no Union member')
